@@ -1,8 +1,60 @@
+import DeapModel.Core.Penalty
 import Driver.Proto
-/-! Protocol handler for C19 (stub until the model is built). -/
+/-!
+Protocol handler for C19 (penalty decorators).
+
+Individuals are ids (`0` = the individual passed to the decorated function, `cid` = what the
+closest-point function returns for it, possibly `0` again); the extras `*args, **kwargs` are the
+pair (shift, tag): the undecorated function returns its table value for the individual with
+`shift` added to every objective, `tag` is opaque.
+
+* `delta <feas> <weights> <delta> <dist> <f0> <shift> <tag>`
+* `closest <feas> <weights> <alpha> <dist> <cid> <f0> <fc> <shift> <tag>`
+
+`<delta>` = `s:<rat>` | `v:<list>`; `<dist>` = `none` | `s:<rat>` | `v:<list>` (what the distance
+function returns for the individual, resp. for `(cid, 0)`); answer `<result> | <calls>` with
+`<result>` = list or `raise`, `<calls>` = `id:shift:tag,…` or `-`.
+-/
 namespace DriverC19
+open Proto Penalty
+
+def parseSV (s : String) : Option (SV Rat) :=
+  if s.startsWith "s:" then (parseRat (s.drop 2).toString).map SV.scalar
+  else if s.startsWith "v:" then (parseList parseRat (s.drop 2).toString).map SV.seq
+  else none
+
+def parseDist (s : String) : Option (Option (SV Rat)) :=
+  if s = "none" then some none else (parseSV s).map some
+
+abbrev Extras := Rat × String
+
+def showOut (o : Out Nat Extras Rat) : String :=
+  (match o.result with | none => "raise" | some r => showList showRat r) ++ " | " ++
+  showList (fun (c : Nat × Extras) => toString c.1 ++ ":" ++ showRat c.2.1 ++ ":" ++ c.2.2) o.calls
+
+def evalFn (table : Nat → List Rat) (i : Nat) (a : Extras) : List Rat := (table i).map (· + a.1)
 
 def handle : List String → String
+  | ["delta", feas, ws, delta, dist, f0, shift, tag] =>
+    match (do
+      let fe ← parseBool feas; let w ← parseList parseRat ws; let d ← parseSV delta
+      let di ← parseDist dist; let t0 ← parseList parseRat f0; let sh ← parseRat shift
+      pure (fe, w, d, di, t0, sh)) with
+    | some (fe, w, d, di, t0, sh) =>
+      showOut (deltaPenalty (fun _ => fe) d (di.map fun v _ => v) (fun _ => w)
+        (evalFn fun _ => t0) 0 (sh, tag))
+    | none => "bad-op"
+  | ["closest", feas, ws, alpha, dist, cid, f0, fc, shift, tag] =>
+    match (do
+      let fe ← parseBool feas; let w ← parseList parseRat ws; let al ← parseRat alpha
+      let di ← parseDist dist; let c ← parseNat cid
+      let t0 ← parseList parseRat f0; let tc ← parseList parseRat fc; let sh ← parseRat shift
+      if c > 1 then none else pure (fe, w, al, di, c, t0, tc, sh)) with
+    | some (fe, w, al, di, c, t0, tc, sh) =>
+      showOut (closestValidPenalty (fun _ => fe) (fun _ => c) al
+        (di.map fun v fi x => if fi = c ∧ x = 0 then v else .seq [])
+        (fun _ => w) (evalFn fun i => if i = 0 then t0 else tc) 0 (sh, tag))
+    | none => "bad-op"
   | _ => "bad-op"
 
 end DriverC19
